@@ -90,12 +90,20 @@ func typeKey(t types.Type) string {
 	return types.TypeString(t, func(p *types.Package) string { return p.Name() })
 }
 
-func fieldHeapName(st types.Type, f *types.Var) string {
-	return "F:" + typeKey(st) + "." + f.Name()
+// heap arrays holding floats have one version per float model
+func modeSuffix(t types.Type) string {
+	if sortOf(t) == SXReal {
+		return "#x"
+	}
+	return ""
 }
-func elemHeapName(el types.Type) string { return "M:" + typeKey(el) }
+
+func fieldHeapName(st types.Type, f *types.Var) string {
+	return "F:" + typeKey(st) + "." + f.Name() + modeSuffix(f.Type())
+}
+func elemHeapName(el types.Type) string { return "M:" + typeKey(el) + modeSuffix(el) }
 func mapHeapNames(mt *types.Map) (d, v, l string) {
-	k := typeKey(mt)
+	k := typeKey(mt) + modeSuffix(mt.Elem())
 	return "MD:" + k, "MV:" + k, "ML:" + k
 }
 
@@ -106,6 +114,9 @@ func unsupp(f string, a ...interface{}) { panic(unsupported{fmt.Sprintf(f, a...)
 // sortOf maps a Go type to the SMT sort of its values. Returns nil for types
 // that have no first-class SMT representation.
 func sortOf(t types.Type) *Sort {
+	if t == types.Type(tMathReal) {
+		return SReal
+	}
 	switch u := t.Underlying().(type) {
 	case *types.Basic:
 		switch {
@@ -146,6 +157,8 @@ func zeroOf(t types.Type) *Term {
 		return False
 	case SReal:
 		return RealLitStr("0")
+	case SXReal:
+		return XFin(RealLitStr("0"))
 	case SStr:
 		return StrLit("")
 	case SSlice:
